@@ -164,8 +164,13 @@ def make_traj(m, species, coords, time_step=2e-15, temperature=600.0, rot=None, 
     # (as they are after any displacement-based query), chosen deterministically from the content
     if mode == 'auto' and 'coords_are_displacement' not in kw and coords.ndim == 3 and coords.shape[0] >= 2:
         import zlib
-        if (zlib.crc32(np.ascontiguousarray(coords).tobytes()) // 4) % 3 == 0:
+        h = zlib.crc32(np.ascontiguousarray(coords).tobytes()) // 4
+        if h % 3 == 0:
             t.to_displacements()
+            if (h // 3) % 2 == 0:
+                # ... and half of those are *built* from the displacements (as apply_drift_correction builds its result), not converted
+                t = Trajectory(species=list(species), coords=np.array(t.coords), coords_are_displacement=True, base_positions=np.array(t.base_positions),
+                               lattice=make_lattice(m, rot), time_step=time_step, metadata={'temperature': temperature}, **kw)
     return t
 
 
